@@ -145,6 +145,22 @@ pub fn a_altresize(_cfg: &Cfg, rs: &[(usize, usize)]) -> Vec<Op> {
     v
 }
 
+/// Sequences that real programs send and this terminal does not implement (xterm, VTE, kitty,
+/// the Linux console, DEC): each must change NOTHING - alone, and as a pair around an
+/// implemented command (a save / push half must not make the restore / pop half do anything).
+pub const KNOWN_FOREIGN: &[&str] = &[
+    "\x1b[#{", "\x1b[#}", "\x1b[1;2#{", "\x1b[#P", "\x1b[#Q", "\x1b[#p", "\x1b[#q", // XTPUSHSGR / XTPOPSGR / colours
+    "\x1b[?7s", "\x1b[?7r", "\x1b[?6s", "\x1b[?6r", "\x1b[?25s", "\x1b[?25r", "\x1b[?1s", "\x1b[?1r", "\x1b[?1049s", "\x1b[?1049r", // XTSAVE / XTRESTORE
+    "\x1b[61\"p", "\x1b[62;1\"p", "\x1b[65\"p", // DECSCL
+    "\x1b[1\"q", "\x1b[0\"q", "\x1b[2 q", "\x1b[5 q", // DECSCA, DECSCUSR
+    "\x1b[?69h", "\x1b[?69l", "\x1b[?2004h", "\x1b[?2004l", "\x1b[?1004h", "\x1b[?12h", "\x1b[?5h", "\x1b[?5l", "\x1b[?3h", "\x1b[?3l", "\x1b[?2026h", "\x1b[?2026l", "\x1b[?45h", "\x1b[?66h",
+    "\x1b[>1u", "\x1b[<u", "\x1b[=1;1u", "\x1b[?u", // kitty keyboard
+    "\x1b[>4;2m", "\x1b[>4m", "\x1b[?4m", "\x1b[>0c", "\x1b[c", "\x1b[6n", "\x1b[?6n", "\x1b[14t", "\x1b[22;0t", "\x1b[23;0t", "\x1b[0x", "\x1b[?1$p",
+    "\x1b%G", "\x1b%@", "\x1b=", "\x1b>", "\x1bl", "\x1bm", "\x1bn", "\x1bo", "\x1b|", "\x1b}", "\x1b~", "\x1b 6", "\x1b F", "\x1b G", "\x1b#3", "\x1b#6",
+    "\x1b]P0123456x\x07", "\x1b]R\x07", "\x1b]4;1;rgb:00/00/00\x07", "\x1b]10;?\x07", "\x1b]52;c;YWJj\x07", "\x1b]104\x07", "\x1b]112\x07", "\x1b]133;A\x07", "\x1b]1337;File=name=YQ==:AAAA\x07", "\x1b]777;notify;a;b\x07", "\x1b]9;4;1;50\x07", "\x1b]8;id=1;http://x\x1b\\",
+    "\x1bP$q\"p\x1b\\", "\x1bP+q544e\x1b\\", "\x1bP=1s\x1b\\", "\x1bP1000p\x1b\\", "\x1b_Ga=q,i=1;AAAA\x1b\\", "\x1b^pm\x1b\\", "\x1bXsos\x1b\\",
+];
+
 /// The core of the save / alternate screen / resize interplay, small enough to go twice as
 /// deep as `a_altresize`: each saved context is clamped when its screen is resized - also the
 /// one of the screen that is not showing, also after the switch back.
@@ -154,6 +170,7 @@ pub fn a_core_deep(cfg: &Cfg) -> Vec<Op> {
         c(DecRst(vec![1047])),
         c(DecSet(vec![1049])),
         c(DecRst(vec![1049])),
+        c(DecSet(vec![47])),
         c(Cup(Some(99), Some(99))),
         c(Decsc),
         c(Decrc),
